@@ -646,12 +646,28 @@ def x5(e: Engine, rep: Report):
         ctx = e.method_ctx(cq, meth)
         rep.functions.add(ctx.func.qname)
         fn = ctx.func.node
+        # (also through a local bound once to the list)
+        alias = set()
+        for a in walk_own(fn):
+            if isinstance(a, ast.Assign) and \
+                    ast.unparse(a.value).endswith('envelope.recipients'):
+                for t in a.targets:
+                    if isinstance(t, ast.Name) and sum(
+                            1 for y in walk_own(fn)
+                            if isinstance(y, ast.Name) and y.id == t.id and
+                            isinstance(y.ctx, ast.Store)) == 1:
+                        alias.add(t.id)
+
+        def is_rcpts(it):
+            return ast.unparse(it).endswith('envelope.recipients') or (
+                isinstance(it, ast.Name) and it.id in alias) or (
+                isinstance(it, ast.Call) and isinstance(it.func, ast.Name)
+                and it.func.id in ('zip', 'enumerate') and it.args and
+                is_rcpts(it.args[0]))
         passes = [x for x in walk_own(fn) if (
-            isinstance(x, ast.For) and
-            ast.unparse(x.iter).endswith('envelope.recipients')) or (
+            isinstance(x, ast.For) and is_rcpts(x.iter)) or (
             isinstance(x, (ast.ListComp, ast.GeneratorExp)) and any(
-                ast.unparse(gen.iter).endswith('envelope.recipients')
-                for gen in x.generators))]
+                is_rcpts(gen.iter) for gen in x.generators))]
         rep.evaluations += 1
         rep.check(bool(passes), 'X5', ctx.func.qname,
                   'recipients are offered by a plain pass over '
